@@ -31,7 +31,7 @@ pub fn default_knobs() -> Knobs {
 pub fn knobs_for(prop: &str) -> Knobs {
     let mut k = default_knobs();
     match prop {
-        "C14" => { k.weird_storage_pct = 60; k.clock_jump_pct = 50; k.faults_pct = 50; k.bad_url_pct = 15; }
+        "C14" => { k.weird_storage_pct = 60; k.clock_jump_pct = 50; k.faults_pct = 50; k.bad_url_pct = 15; k.forged_pct = 30; }
         "C02" => { k.cup = Some(true); k.forged_pct = 45; k.retry_after_pct = 40; }
         "C06" => { k.retry_after_pct = 25; k.update_pct = 10; k.max_checks = 6; }
         "C07" => { k.retry_after_pct = 80; k.update_pct = 20; }
@@ -101,13 +101,19 @@ pub fn rand_http(rng: &mut Rng, app_ids: &[String], k: &Knobs, cup: bool) -> Val
                 if rng.chance(1, 5) { v.push(hx(&rand_retry_after(rng))); }
                 v
             } else { vec![] };
-            let auth = if cup && rng.below(100) < k.forged_pct { *rng.pick(&["none", "badsig", "otherkey", "bodytamper", "replay"]) } else { "genuine" };
+            let auth = if cup && rng.below(100) < k.forged_pct { *rng.pick(&["none", "badsig", "otherkey", "histkey", "bodytamper", "replay", "rawetag", "rawetag", "rawetag"]) } else { "genuine" };
             let body = if rng.chance(1, 8) {
                 json!({"bad": hex::encode(*rng.pick(&[&b"<html>"[..], b"", b"{\"response\":{}}", b"{\"response\":{\"protocol\":\"3.0\",\"app\":[{\"appid\":1}]}}", b")]}'\n)]}'\n{}", b"\xff\xfe",
                                                         // every prefix of the anti-XSSI guard, with and without its line end
                                                         b")", b")]", b")]}", b")]}'", b")]}'\n", b")]}'\n ", b")]}'{}", b")]}'\r\n{}"]))})
             } else { json!({"doc": rand_doc(rng, app_ids, k)}) };
-            json!({"status": status, "retry_after": ra, "auth": auth, "body": body})
+            let mut o = json!({"status": status, "retry_after": ra, "auth": auth, "body": body});
+            if auth == "rawetag" {
+                // header values around the ETag grammar: lone quotes, weak-validator prefixes, empty halves, non-hex, non-ASCII
+                o["etag"] = json!(hex::encode(*rng.pick(&[&b"\""[..], b"\"", b"\"", b"W/\"", b"W/\"", b"W/", b"W", b"", b"\"\"", b"W/\"\"", b"\"a", b"a\"", b":", b"::", b"00:00", b"zz:zz",
+                                                        b"W/\"00:00\"", b"\"00:00", b"00:00\"", b"3006020101020101:", b":3006020101020101", b"\xff\xfe:\x80", b" \" ", b"\"\"\""])));
+            }
+            o
         }
     }
 }
